@@ -88,9 +88,17 @@ def template(draw):
                     fr["tr"] = ["abs", fr["tr"][1]]
         else:
             rear = None
-    if use_m and rear and draw(st.booleans()):
+    # the moot may declare an inode of its own (`framer org be moot via box of framer`): every clone inherits it relative
+    # to ITS OWN name, so inode-relative data is private to each clone - also to clones reared at run time
+    orgvia = draw(st.booleans()) if (use_m and rear) else False
+    if use_m and rear and not orgvia and draw(st.booleans()):
         use_m = False
-    if use_m:
+    if use_m and orgvia:
+        for j, c in enumerate(clones):
+            c["via"] = "mine"     # (`via mine` keeps the moot's inode; no clause or another path would replace it)
+        if nested:
+            nested["via"] = "me.y"
+    elif use_m:
         rear = None
         for j, c in enumerate(clones):
             c["via"] = draw(st.sampled_from(["ino%d" % j, "me.ino%d" % j]))
@@ -115,7 +123,7 @@ def template(draw):
     return {"body": body, "nested": nested, "clones": clones, "rear": rear, "use_m": use_m, "hier": hier,
             "second": second, "ek": draw(st.integers(1, 8)),
             "t1": draw(st.integers(1, 6)), "t2": draw(st.integers(1, 6)), "t3": draw(st.integers(1, 5)), "t4": draw(st.integers(1, 5)),
-            "loop": draw(st.booleans()), "ticks": draw(st.integers(8, 26)), "mainvia": draw(st.booleans())}
+            "loop": draw(st.booleans()), "ticks": draw(st.integers(8, 26)), "mainvia": draw(st.booleans()), "orgvia": orgvia}
 
 
 def moot_lines(name, body, nested, sched, use_m=False, hier=None):
@@ -230,7 +238,7 @@ def script(tp, baseline=None):
     L.append("frame f4")
     L.append("aux org" if baseline == ("rear",) else PLACEHOLDER)
     if rear and rear.get("static_in_f4"):
-        L.append("aux org as mine" if baseline is None else PLACEHOLDER)
+        L.append("aux org as mine" + (" via mine" if tp.get("orgvia") else "") if baseline is None else PLACEHOLDER)
     inside = bool(rear and rear.get("inside"))
     if inside:
         # the raze runs in an under frame of f4 while f4 (and so every clone it holds) stays entered
@@ -249,14 +257,17 @@ def script(tp, baseline=None):
     if sec:
         L += ["framer mainb be active first g1", "frame g1", "go next if .d.a >= %d" % sec["tb"], "frame g2"]
         if baseline is None:
-            L.append("aux org as mine" + (" via inob" if tp.get("use_m") else ""))
+            L.append("aux org as mine" + (" via mine" if tp.get("orgvia") else (" via inob" if tp.get("use_m") else "")))
         elif baseline == ("second",):
             L.append("aux org")
         else:
             L.append(PLACEHOLDER)
         L += ["go next if .d.a >= %d" % (sec["tb"] + sec["tb2"]), "frame g3", "print g"]
     sched = "moot" if baseline is None else "aux"
-    L += moot_lines("org", tp["body"], tp["nested"], sched, tp.get("use_m"), tp.get("hier"))
+    ml = moot_lines("org", tp["body"], tp["nested"], sched, tp.get("use_m"), tp.get("hier"))
+    if tp.get("orgvia"):
+        ml[0] += " via box of framer"
+    L += ml
     if tp.get("use_m"):
         L += ["framer inner0 be moot", "frame I0", "put 0 into m of me", "recur", "inc m of me with 1", "go next if m of me >= 3",
               "frame I1", "done me"]
